@@ -164,6 +164,7 @@ class StmtMixin:
             v = v.as_value()
         if isinstance(target, ast.Name):
             fr.locals[target.id] = v
+            self.lemma_hook(fr, target.id)
             return
         if isinstance(target, ast.Tuple):
             if isinstance(v, VTuple) and len(v.items) == len(target.elts):
